@@ -480,3 +480,60 @@ Example users_exact_example :
   forallb wf_urec [rec_plain] = true /\ forallb terminated [rec_plain] = true /\
   map u_host (spec_users [rec_plain]) = [bs "localhost"].
 Proof. vm_compute. auto. Qed.
+
+(* ================================================================ interface flags *)
+Lemma nodup_snd_inj {A B} (t : list (A * B)) x y :
+  NoDup (map snd t) -> In x t -> In y t -> snd x = snd y -> x = y.
+Proof.
+  induction t as [|p t IH]; intros Hnd Hx Hy He; [contradiction|].
+  cbn [map] in Hnd. inversion Hnd as [|? ? Hnot Hnd']; subst.
+  destruct Hx as [->|Hx]; destruct Hy as [->|Hy]; auto.
+  - exfalso. apply Hnot. rewrite He. now apply in_map.
+  - exfalso. apply Hnot. rewrite <- He. now apply in_map.
+Qed.
+
+Lemma net_if_flags_exact flags i name : 0 <= flags -> In (i, name) spec_iff ->
+  (In name (net_if_flags flags) <-> Z.testbit flags i = true).
+Proof.
+  intros Hf Hin. unfold net_if_flags. change iff_table with spec_iff.
+  assert (Hnd : NoDup (map snd spec_iff)).
+  { vm_compute. repeat (constructor; [cbn; intuition discriminate|]). constructor. }
+  assert (Hi : 0 <= i).
+  { vm_compute in Hin. repeat (destruct Hin as [Hin|Hin]; [injection Hin as <- _; lia|]). contradiction. }
+  rewrite in_map_iff. split.
+  - intros [[i' n'] [Hs Hflt]]. cbn [snd] in Hs. subst n'. apply filter_In in Hflt as [Hin' Hp].
+    assert (E : (i', name) = (i, name)) by (apply (nodup_snd_inj spec_iff); auto).
+    injection E as ->. cbn [fst] in Hp. rewrite land_pow2_eqb0, negb_involutive in Hp by lia. exact Hp.
+  - intros Hb. exists (i, name). split; [reflexivity|]. apply filter_In. split; [exact Hin|].
+    cbn [fst]. rewrite land_pow2_eqb0, negb_involutive by lia. exact Hb.
+Qed.
+
+(* ================================================================ statements as used in Properties/C17.v *)
+Lemma users_decode_fixed rs :
+  forallb wf_urec rs = true -> users true (k_utmp_file rs) = MOk (spec_users rs).
+Proof. intros H. apply users_exact; auto. Qed.
+
+Lemma users_decode_asis rs :
+  forallb wf_urec rs = true -> forallb terminated rs = true ->
+  users false (k_utmp_file rs) = MOk (spec_users rs).
+Proof. intros H T. apply users_exact; auto. Qed.
+
+Lemma strncpy_safe src n : (1 <= n)%nat ->
+  exists ws, psutil_strncpy src n = Some ws /\ in_bounds n ws /\
+  forall junk, length junk = n ->
+    exists s, c_str (apply_writes junk ws) = Some s /\ (length s < n)%nat.
+Proof.
+  intros Hn. destruct (psutil_strncpy_defined src n Hn) as [ws Hws]. exists ws.
+  split; [exact Hws|]. split; [exact (psutil_strncpy_in_bounds src n ws Hws)|].
+  intros junk Hj. exact (psutil_strncpy_terminated src n ws junk Hws Hj).
+Qed.
+
+Lemma getaffinity_terminates (kernel_ok : Z -> bool) :
+  (exists n, aff_loop 25 kernel_ok 64 = AffOk n /\ 0 < n <= INT_MAX)
+  \/ aff_loop 25 kernel_ok 64 = AffOverflowError.
+Proof.
+  destruct (aff_loop_terminates kernel_ok) as [n Hn|]; [left; eauto|right; reflexivity].
+Qed.
+
+Lemma affinity_readout bits : aff_scan bits 0 (popcount bits) = Some (set_bits 0 bits).
+Proof. apply aff_scan_exact. Qed.
